@@ -5,7 +5,9 @@ go 1.26.8
 require (
 	github.com/anishathalye/porcupine v1.3.0
 	github.com/kubewharf/kubegateway v0.0.0
+	k8s.io/api v0.18.10
 	k8s.io/apimachinery v0.18.19
+	k8s.io/apiserver v0.18.10
 	k8s.io/client-go v0.18.10
 	kgsimhook v0.0.0
 )
@@ -98,9 +100,7 @@ require (
 	gopkg.in/natefinch/lumberjack.v2 v2.0.0 // indirect
 	gopkg.in/square/go-jose.v2 v2.2.2 // indirect
 	gopkg.in/yaml.v2 v2.4.0 // indirect
-	k8s.io/api v0.18.10 // indirect
 	k8s.io/apiextensions-apiserver v0.18.10 // indirect
-	k8s.io/apiserver v0.18.10 // indirect
 	k8s.io/cloud-provider v0.18.10 // indirect
 	k8s.io/cluster-bootstrap v0.18.10 // indirect
 	k8s.io/component-base v0.18.10 // indirect
